@@ -331,9 +331,38 @@ def program_case(item) -> Dict[str, Any]:
     return out
 
 
+# -- 5. named-period string indexes mixed with integer offsets (concrete, text level) -------------------------------
+NAMED_PERIOD_CASES = [
+    # script, ENDOGENOUS, EXOGENOUS, LAGS, LEADS  (a string / backticked index addresses a fixed period: it is no lag or lead)
+    ("Y = X[-2] + X['2001']", ['Y'], ['X'], 2, 0),
+    ("Y = X['2001'] + X[-2]", ['Y'], ['X'], 2, 0),
+    ("Y = X['2001'] + Z[1]", ['Y'], ['X', 'Z'], 0, 1),
+    ("Y = X[`2001`] * X[-1]\nZ = X[3]", ['Y', 'Z'], ['X'], 1, 3),
+    ("Y = X[-1]\nZ = X['2001'] + X[-3]", ['Y', 'Z'], ['X'], 3, 0),
+    ('Y = X["a"] + {p}[-2] * <e>[2]', ['Y'], ['X'], 2, 2),
+    ("Y = X['2001']", ['Y'], ['X'], 0, 0),
+]
+
+
+def named_case(item) -> Dict[str, Any]:
+    text, endo, exo, lags, leads = item
+    out = {'kind': 'named', 'item': text.replace('\n', ' ; '), 'paths': 0, 'stats': {}, 'bad': [], 'assumptions': [], 'exhausted': True}
+    pb = parse_and_build(text)
+    if 'error' in pb:
+        out['bad'].append({'what': f'rejected: {pb["error"]}: {pb["msg"][:80]}', 'replayed': True, 'values': {'text': text}})
+        return out
+    M = pb['Model']
+    got = (list(M.ENDOGENOUS), list(M.EXOGENOUS), M.LAGS, M.LEADS)
+    if got != (endo, exo, lags, leads):
+        out['bad'].append({'what': f'(ENDOGENOUS, EXOGENOUS, LAGS, LEADS) = {got}, expected {(endo, exo, lags, leads)}', 'replayed': True,
+                           'values': {'text': text}})
+    return out
+
+
 def dispatch(item):
     kind, payload = item
-    return {'merge': merge_case, 'lagsleads': lagslead_case, 'range': range_case, 'program': program_case}[kind](payload)
+    return {'merge': merge_case, 'lagsleads': lagslead_case, 'range': range_case, 'program': program_case,
+            'named': named_case}[kind](payload)
 
 
 def main() -> int:
@@ -367,6 +396,7 @@ def main() -> int:
     for p in ps['fixed'] + ps['illegal']:
         items.append(('program', (p, 'wide')))
         n_prog += 1
+    items += [('named', c) for c in NAMED_PERIOD_CASES]
     results = run_items(dispatch, items)
     twins = [dispatch(('merge', (T.EXOGENOUS, T.EXOGENOUS, 'mention', (None, None), 'lags_off'))),
              dispatch(('lagsleads', (2, 'min', 'none', True, 'lags_off'))),
@@ -385,7 +415,7 @@ def main() -> int:
         by_kind[r['kind']] = by_kind.get(r['kind'], 0) + 1
         add_stats(tot, r['stats'])
         assumptions.update(r['assumptions'])
-        if r['kind'] != 'program':
+        if r['kind'] not in ('program', 'named'):
             solver_obligations += 1
             if not r['exhausted'] or r['paths'] == 0:
                 rep.error(f"obligation not exhaustively explored / vacuous: {r['item']}")
@@ -428,7 +458,7 @@ def main() -> int:
         'reachability_twin': twin_rep,
         'exhaustive': False,
         'outside_claim': ['the program dimension (enumerated; classification of names is a concrete assertion, the tokeniser is regex code)',
-                          'named-period string indexes', 'CrossHair second opinion on Symbol.combine (thorough tier only)'],
+                          'named-period string indexes beyond the seven fixed scripts (concrete assertions)', 'CrossHair second opinion on Symbol.combine (thorough tier only)'],
     })
     return rep.finish()
 
